@@ -110,6 +110,8 @@ theorem merge_sat (d0 : Dir) (names : List String) (dst : String) (flt : Nat →
   have hG : ∀ d, K d0 d → Gd d := fun d k => K_G h0 k
   have hQerr : ∀ d, Qmerge d0 names .err d := by intro d out h; cases h
   unfold mergePlan
+  split
+  · rw [sat_done]; exact hQerr d0
   apply openAll_sat hQerr names _ d0 hnd
   intro n1
   apply readMetas_sat hQerr d0 names _ d0 hnd
